@@ -32,6 +32,22 @@ class Frames:
         self.reports = []
         self._seen = set()
         self.reporting = False
+        # a parameter or local that is never assigned after its definition and to which the offset is
+        # added (subtracted) somewhere is an api (file) id wherever it is used: the function says so itself
+        assigned = {}
+        for ev in fn.events():
+            if ev.k == 'store':
+                l0 = strip_casts(ev.store_parts()[0])
+                if l0.get('op') == 'ref':
+                    assigned[l0['name']] = assigned.get(l0['name'], 0) + 1
+        self.fixed = {}
+        for b in fn.blocks.values():
+            for e in [ev.e for ev in b.events if ev.e is not None] + ([b.cond] if b.cond is not None else []):
+                for n in walk(e):
+                    if n.get('op') == 'bin' and n['o'] in ('+', '-') and self.is_off(n['k'][1]):
+                        a = strip_casts(n['k'][0])
+                        if a.get('op') == 'ref' and a.get('rk') == 'param' and not assigned.get(a['name']):
+                            self.fixed.setdefault(a['name'], set()).add(API if n['o'] == '+' else FILE)
 
     def relevant(self):
         if self.offs:
@@ -92,6 +108,8 @@ class Frames:
         if d:
             return d
         op = e.get('op')
+        if op == 'ref' and e.get('name') in self.fixed and len(self.fixed[e['name']]) == 1:
+            return frozenset(self.fixed[e['name']])
         if op == 'bin' and e['o'] in ('+', '-'):
             a, b = e['k']
             if self.is_off(b):
@@ -212,10 +230,23 @@ class Frames:
         return self.reports
 
 
-def frames_rule(ctx, P, rule, files=('src/reader.c', 'src/core.c')):
+# which property a function that handles the offset belongs to (a report in a function of another
+# property's read path would be an alarm on code where this property holds)
+def kind_of(fn):
+    n = fn.name
+    if 'annotation' in n:
+        return 'annotation'
+    if 'utc' in n:
+        return 'utc'
+    if 'statistics' in n:
+        return 'statistics'
+    return 'samples'
+
+
+def frames_rule(ctx, P, rule, files=('src/reader.c', 'src/core.c'), kinds=('samples',), minimum=1):
     n = 0
     for fn in P.all_functions():
-        if fn.file not in files:
+        if fn.file not in files or kind_of(fn) not in kinds:
             continue
         F = Frames(fn)
         if not F.relevant():
@@ -225,4 +256,4 @@ def frames_rule(ctx, P, rule, files=('src/reader.c', 'src/core.c')):
         reps = F.run()
         ctx.ob(rule, not reps, fn.name, 'sample-id frames (api vs file ids)', reps[0][0] if reps else fn.where(),
                'offset applied once per value; no compare mixes an api id with a file id' if not reps else '; '.join(r[1] for r in reps[:2]))
-    ctx.floor('functions handling the sample-id offset', n, 5)
+    ctx.floor('functions handling the sample-id offset (%s)' % '/'.join(kinds), n, minimum)
